@@ -565,7 +565,7 @@ def run(ctx):
     })
     ncut = cutvalue_pass(ctx, random.Random(ctx.seed * 7 + 3), 1500 if ctx.tier == "quick" else 30000)
     ctx.coverage["evaluations"] = ctx.coverage.get("evaluations", 0) + ncut
-    nhuge = huge_pass(ctx, random.Random(ctx.seed * 11 + 5), 4 if ctx.tier == "quick" else 40)
+    nhuge = huge_pass(ctx, random.Random(ctx.seed * 11 + 5), 3 if ctx.tier == "quick" else 40)
     ctx.coverage["evaluations"] += 2 * nhuge
     if divs or rdiv:
         # a divergence alone is not a violation: look for a failing input around it first
@@ -659,7 +659,8 @@ def huge_pass(ctx, rnd, n):
     try:
         snap = setup_base(rig)
         for k in range(n):
-            size = rnd.choice([1048576 - 4096, 1048576 + 1, 1100000, 1300000, 2200000])
+            size = rnd.choice([1048576 + 1, 1100000, 1300000] if ctx.tier == "quick" else
+                              [1048576 - 4096, 1048576 + 1, 1100000, 1300000, 2200000])
             v = rnd.choice([10, 12, 14, 20])
             kind = rnd.choice(["register", "locate"])
             step = rnd.choice([None, 65536, 16384, 100000])
